@@ -390,8 +390,8 @@ Section FragmentsRule.
     destruct (q_leaf_parent q && negb (is_composite_name S pn)); [reflexivity |].
     destruct (named_type S F (fst tc)) as [b|]; [| reflexivity].
     destruct (is_composite_body b); [| reflexivity].
-    destruct (possible_types S (fst tc)) as [a|]; [| reflexivity].
-    destruct (possible_types S pn) as [b'|]; [| reflexivity].
+    destruct (possible_types q S F (fst tc)) as [a|]; [| reflexivity].
+    destruct (possible_types q S F pn) as [b'|]; [| reflexivity].
     rewrite (existsb_order pi1 Hpi1), (existsb_order pi2 Hpi2). reflexivity.
   Qed.
 
@@ -409,8 +409,8 @@ Section FragmentsRule.
     destruct (q_leaf_parent q && negb (is_composite_name S pn)); [apply add_errs_dirty; exact H |].
     destruct (named_type S F (fst tc)) as [b|]; [| exact H].
     destruct (is_composite_body b); [| exact H].
-    destruct (possible_types S (fst tc)) as [a|]; [| apply set_abort_dirty; exact H].
-    destruct (possible_types S pn) as [b'|]; [| apply set_abort_dirty; exact H].
+    destruct (possible_types q S F (fst tc)) as [a|]; [| apply set_abort_dirty; exact H].
+    destruct (possible_types q S F pn) as [b'|]; [| apply set_abort_dirty; exact H].
     destruct (existsb _ _); [exact H | apply add_errs_dirty; exact H].
   Qed.
 
